@@ -433,6 +433,17 @@ def real_op(h, op):
             return show_list(cp.sections())
         if k == 'dump':
             return dump(cp)
+        if k == 'clean':
+            # the model answers whether its proved round-trip predicate IniClean holds; the real side answers
+            # whether write -> read really reproduces the content.  T on the model side must imply ~T here.
+            f = io.StringIO(); cp.write(f)
+            new = fresh()
+            try:
+                new.read_string(f.getvalue())
+                same = dump(new) == dump(cp)
+            except Exception:  # noqa
+                same = False
+            return '~T' if same else '~F'
     except Exception as e:  # noqa
         return '!' + err_name(e)
     raise ValueError(k)
@@ -639,8 +650,8 @@ def run(seed, n, run_step):
                 h = Holder(cp)
                 outs = []
                 nops = rng.randint(1, 14)
-                for step_no in range(nops + 2):
-                    o = dedup_items(gen_op(rng, h.cp)) if step_no < nops else (('w',), ('dump',))[step_no - nops]
+                for step_no in range(nops + 3):
+                    o = dedup_items(gen_op(rng, h.cp)) if step_no < nops else (('clean',), ('w',), ('dump',))[step_no - nops]
                     toks.append(op_token(o))
                     a = real_op(h, o)
                     outs.append(a)
@@ -713,6 +724,19 @@ def run(seed, n, run_step):
             continue
         if kind == 'nonascii':
             bump('nonascii:lower-harmless:' + ('agree' if m == r else 'DISAGREE'))
+        if '~' in r and m != r:
+            # token-wise comparison: `clean` answers are related by implication, not equality
+            mt, rt = m.split(' '), r.split(' ')
+            ok = len(mt) == len(rt)
+            for a, b in zip(mt, rt):
+                if b in ('~T', '~F'):
+                    bump(f'roundtrip:IniClean={a}:real-roundtrip={b[1]}')
+                    ok = ok and a in ('T', 'F') and not (a == 'T' and b == '~F')
+                else:
+                    ok = ok and a == b
+            if not ok:
+                disagreements.append({'op': l, 'model': m, 'real': r})
+            continue
         if m != r:
             disagreements.append({'op': l, 'model': m, 'real': r})
     for k in range(0, len(lines), max(1, len(lines) // 12)):
